@@ -373,7 +373,19 @@ func (w *World) Restart(i int) {
 	old.StopWAL()
 	old.Close()
 	w.cur = i
-	nd := w.bootNode(i, w.openWAL(i))
+	var nd *consensus.VerifNode
+	func() {
+		// a node that cannot be constructed on its own files is a finding about the node, not about the harness
+		defer func() {
+			if p := recover(); p != nil {
+				if explore.IsPruned(p) {
+					panic(p)
+				}
+				panic(RestartError{Node: i, What: fmt.Sprint(p)})
+			}
+		}()
+		nd = w.bootNode(i, w.openWAL(i))
+	}()
 	w.Nodes[i] = nd
 	w.savedCnt()[i] = 0
 	if err := nd.CatchupReplay(); err != nil {
@@ -400,6 +412,12 @@ func (w *World) valScriptFor() map[uint64][]*types.Validator {
 		out[h] = vs
 	}
 	return out
+}
+
+// RestartError: a correct node could not be constructed again on its own database and WAL.
+type RestartError struct {
+	Node int
+	What string
 }
 
 func (w *World) bootNode(i int, wal consensus.WAL) *consensus.VerifNode {
